@@ -23,7 +23,7 @@ def sh(cmd, cwd=None, timeout=1800, env=None):
 def demo_cmd(d, R, out):
     """returns shell command that builds and runs the demo against tree R"""
     if os.path.exists(os.path.join(d, 'demo.sh')):
-        return 'R=%s OUT=%s sh %s/demo.sh' % (R, out, d)
+        return 'mkdir -p %s.d && cd %s.d && R=%s TMPDIR=%s.d sh %s/demo.sh; rc=$?; cd /; rm -rf %s.d; exit $rc' % (out, out, R, out, d, out)
     src = 'demo.cc' if os.path.exists(os.path.join(d, 'demo.cc')) else 'demo.c'
     return ('R=%s; gcc -g -O1 -pthread %s %s/%s %s -o %s -lm || exit 99; timeout 120 %s; rc=$?; rm -f %s; exit $rc' % (R, INC, d, src, SRCS, out, out, out))
 
@@ -63,7 +63,10 @@ def confirm(mid, demo_runs):
             runs_without.append({'rc': rc, 's': t, 'tail': out.strip().splitlines()[-3:]})
         res['demo_with_change'] = runs_with
         res['demo_unchanged'] = runs_without
-        res['demo_fails_with_change'] = sum(1 for r in runs_with if r['rc'] not in (0, 99))
+        def buildfail(r):
+            return r['rc'] == 99 or any(('ld returned' in l or 'error:' in l or 'No such file' in l) for l in r['tail'])
+        res['demo_build_failed'] = any(buildfail(r) for r in runs_with + runs_without)
+        res['demo_fails_with_change'] = sum(1 for r in runs_with if r['rc'] != 0 and not buildfail(r))
         res['demo_passes_unchanged'] = sum(1 for r in runs_without if r['rc'] == 0)
         res['confirmed'] = bool(res['compiles'] and res['ctest_rc'] == 0 and res['demo_fails_with_change'] >= 1
                                 and res['demo_passes_unchanged'] == len(runs_without))
